@@ -120,6 +120,10 @@ class PersistentRemoteWorker(PersistentWorker, RemoteWorker):
                 assert len(result) == 2
                 logger.info(f'Final result received')
                 self._result = result
+                if not last_partial_result_signalled:
+                    # the child has been killed before it could signal the end of its results (forced termination)
+                    self._results_pipe.child_end.put((counter, False, None, self.id))
+                    last_partial_result_signalled = True
                 try:
                     self._user_state = recv_msg(self._socket, comment='data: user state')
                     logger.debug('User state received')
